@@ -6,6 +6,7 @@ import (
 	"sort"
 	"strings"
 
+	"verifharness/commitx"
 	"verifharness/hx"
 	"verifharness/txk"
 )
@@ -33,6 +34,9 @@ type Outcome struct {
 	// still judges it).
 	ReadAliased bool
 	Unfinished  bool
+	// OrphanBlobs: blob files left on disk after all writers finished that nothing reachable from the root refers to.
+	OrphanBlobs int
+	WalkProblem string
 }
 
 func pagesArg(ps []string) string {
@@ -139,7 +143,7 @@ func Drive(ctx context.Context, s *hx.Session, sc Scenario, sched []int, header 
 		return nil, err
 	}
 	defer r.Close()
-	caseHeader := strings.TrimSpace(fmt.Sprintf("%s maxretry=%d init=%s", header, MaxRetry(), InitArg(sc.Init)))
+	caseHeader := strings.TrimSpace(fmt.Sprintf("%s vals=%s maxretry=%d init=%s", header, sc.ValMode(), MaxRetry(), InitArg(sc.Init)))
 	o := &Outcome{}
 	type pair struct{ op, out string }
 	var lines []pair
@@ -333,6 +337,34 @@ func Drive(ctx context.Context, s *hx.Session, sc Scenario, sched []int, header 
 		}
 	}
 	o.Unfinished = !r.AllDone()
+	if !o.Unfinished {
+		// blob files that nothing reachable from the store's root refers to (node blobs and separate-segment value blobs)
+		if ds, err := commitx.ReadDisk(r.Dir); err == nil {
+			var reach *commitx.Reach
+			werr := r.Env.AsOtherProcess(func(oe *txk.Env) error {
+				var e2 error
+				reach, e2 = commitx.Walk(ctx, oe, ds)
+				return e2
+			})
+			items, ierr := r.ItemIDs()
+			if werr == nil && ierr == nil && reach != nil && len(reach.Problems) == 0 {
+				for _, ids := range ds.BlobFiles {
+					for _, id := range ids {
+						if !reach.BlobIDs[id] && !items[id] {
+							o.OrphanBlobs++
+						}
+					}
+				}
+			} else {
+				o.WalkProblem = fmt.Sprint(werr, " ", func() []string {
+					if reach != nil {
+						return reach.Problems
+					}
+					return nil
+				}())
+			}
+		}
+	}
 	for _, w := range r.W {
 		res := ErrClass(w.Err)
 		if w.Spec.Abort && w.Err == nil {
